@@ -244,9 +244,66 @@ def gen_base(rng):
     return serialize(doc)
 
 
+DEPTHS = [20, 50, 100, 150, 200, 250, 300, 330, 400, 450, 490, 500, 510,
+          600, 700, 800, 900, 950, 990, 1000, 1100, 1200, 1400, 1497, 1500,
+          2000, 3000, 5000, 20000]
+
+
+def nested_json(depth, shape):
+    if shape == 'lists':
+        return '{"k": ' + '[' * depth + ']' * depth + '}'
+    if shape == 'dicts':
+        return '{"k": ' + '{"a": ' * depth + '1' + '}' * depth + '}'
+    if shape == 'mixed':
+        return '{"k": ' + '[{"a": ' * (depth // 2) + '0' + \
+            '}]' * (depth // 2) + '}'
+    return '[' * depth + ']' * depth          # not even an object
+
+
+def nested_doc(depth, shape, where):
+    body = nested_json(depth, shape).encode('ascii') + b'\n'
+    hdr = b'meta: format=json, length=%d\n' % len(body)
+    if where == 'main':
+        return (b'#diffx: encoding=utf-8, version=1.0\n#.' + hdr + body +
+                b'#.change:\n#..file:\n#...meta: length=3\n{}\n')
+    if where == 'change':
+        return (b'#diffx: encoding=utf-8, version=1.0\n#.change:\n#..' + hdr +
+                body + b'#..file:\n#...meta: length=3\n{}\n')
+    return (b'#diffx: encoding=utf-8, version=1.0\n#.change:\n#..file:\n#...' +
+            hdr + body)
+
+
+def _at_stack_depth(k, fn):
+    if k <= 0:
+        return fn()
+    return _at_stack_depth(k - 1, fn)
+
+
+def depth_sweep(ctx):
+    """Metadata nested to every depth around the interpreter's recursion
+    limit, through the streaming reader and the object model, called from a
+    shallow and from a deep Python stack."""
+    obs = ctx.obs
+    i = 0
+    for depth in DEPTHS:
+        for shape in ('lists', 'dicts', 'mixed', 'bare'):
+            for where in ('main', 'change', 'file'):
+                for frames in (0, 300, 700):
+                    i += 1
+                    if not ctx.mine(i):
+                        continue
+                    if ctx.quick and (i // ctx.n) % 3:
+                        continue
+                    data = nested_doc(depth, shape, where)
+                    obs.count('depth_sweep_inputs')
+                    _at_stack_depth(frames, lambda: check_input(
+                        data, obs, ('nested_json_depth',), base=b''))
+
+
 def run(ctx):
     obs = ctx.obs
     rng = ctx.rng
+    depth_sweep(ctx)
     n = ctx.share(ctx.pick(50000, 2500000))
     per_base = 25
     done = 0
